@@ -688,7 +688,11 @@ def _provenance(ctx, run, f):
             rest = {n: v for n, v in co.items() if n not in (samples_per_line, sample_offset)}
             if co.get(samples_per_line) == 1 and co.get(sample_offset) == -1 and k <= 0 and len(rest) == 1:
                 dn, dv = list(rest.items())[0]
-                if dv <= -1 and {payload_bits, frc_bits} <= _closure(d, [dn]):
+                roots = [dn]
+                if dn.startswith("<") and dn in f._cache.get("lin_opaque", {}):
+                    # an expression standing for the data samples (the product written out in place)
+                    roots = sorted(atoms.Operand(f, f._cache["lin_opaque"][dn]).locals)
+                if dv <= -1 and {payload_bits, frc_bits} <= _closure(d, roots):
                     good = (co, k)
         key = "RF-LIN:vbi3_bit_slicer_set_params:search-window-budget"
         if good:
